@@ -104,6 +104,10 @@ def bi_list(interp, st, args, kwargs, node):
     v = args[0]
     if isinstance(v, (SymList, GList)):
         return v
+    from .filt import FiltList
+
+    if isinstance(v, FiltList):
+        return v
     if isinstance(v, CSet):
         return set_to_list(interp, st, v, node)
     items = _M().iter_values(interp, st, v, node)
@@ -498,7 +502,12 @@ def bi_id(interp, st, args, kwargs, node):
     raise Outside("id()", node)
 
 
+def bi_super(interp, st, args, kwargs, node):
+    return _I().Opaque("super()")
+
+
 BUILTINS = {
+    "super": bi_super,
     "len": bi_len,
     "range": bi_range,
     "enumerate": bi_enumerate,
@@ -785,6 +794,8 @@ def np_sum(interp, st, args, kwargs, node):
             return 0
         return _reduce_arr(v.map(as_int), M.s_add, axis)
     if isinstance(v, Grid):
+        if axis is None and getattr(v, "neq_of", None) is not None:
+            return n_diff_term(st, *v.neq_of)
         if axis is None:
             if v.kind == "bool" and v.count is not None:
                 return v.count
@@ -1687,3 +1698,44 @@ METHODS = {
 
 
 LIBFUNCS.update({"np.arange": np_arange, "np.delete": np_delete})
+
+
+_PERCENTILE = {}
+
+
+def np_percentile(interp, st, args, kwargs, node):
+    """np.percentile(a, q) of a 1-d array: an uninterpreted real function of (the array, its length, q) - whatever numpy computes,
+    the same inputs give the same value (trusted: np.percentile is a pure function)"""
+    a, q = args[0], args[1]
+    if kwargs or len(args) != 2:
+        raise Outside("np.percentile with options", node)
+    if isinstance(a, Arr):
+        a = _M().arr_to_grid(a)
+    if not isinstance(a, Grid) or a.rank != 1:
+        raise Outside("np.percentile of a non-1d array", node)
+    _trust("np.percentile is a pure function of its array and q (its value is not interpreted)")
+    key = str(a.arr.sort())
+    if key not in _PERCENTILE:
+        _PERCENTILE[key] = z3.Function("np_percentile_" + str(len(_PERCENTILE)), a.arr.sort(), z3.IntSort(), z3.RealSort(), z3.RealSort())
+    qz = to_z3(q)
+    if qz.sort() == z3.IntSort():
+        qz = z3.ToReal(qz)
+    return _PERCENTILE[key](a.arr, to_z3(a.dims[0]), qz)
+
+
+LIBFUNCS.update({"np.percentile": np_percentile})
+
+
+_NDIFF = {}
+
+
+def n_diff_term(st, a, b):
+    """np.sum(a != b) for two arrays of one shape: the number of positions at which they differ - an uninterpreted function of the
+    two array terms and the shape, between 0 and the number of entries (trusted meaning of the numpy idiom)"""
+    _trust("np.sum(a != b) is the number of positions at which a and b differ (a function of the two arrays only)")
+    key = (a.rank, a.kind, b.kind)
+    if key not in _NDIFF:
+        _NDIFF[key] = z3.Function(f"n_diff_{a.rank}_{a.kind}_{b.kind}", *([a.arr.sort(), b.arr.sort()] + [z3.IntSort()] * a.rank + [z3.IntSort()]))
+    t = _NDIFF[key](a.arr, b.arr, *[to_z3(d) for d in a.dims])
+    st.assume(t >= 0)
+    return t
